@@ -517,6 +517,34 @@ func c17Origins(c *RunCtx) {
 			list = append(list, toLowerASCIIRef(buildOrigin(rr, 1+rr.Intn(4))))
 			sort.Strings(list)
 		}
+		if rr.Chance(35) {
+			// several listed origins of the same length that share parts, and an
+			// Origin spliced from the head of one and the tail of another
+			k := 2 + rr.Intn(3)
+			list = []string{allowed}
+			for len(list) < k && len(allowed) > 0 {
+				b := []byte(allowed)
+				for m := 1 + rr.Intn(3); m > 0; m-- {
+					j := rr.Intn(len(b))
+					b[j] = "abcxyz0189.:-"[rr.Intn(13)]
+				}
+				list = append(list, string(b))
+			}
+			sort.Strings(list)
+			switch rr.Intn(3) {
+			case 0:
+				o = list[rr.Intn(len(list))]
+			default:
+				x, y := list[rr.Intn(len(list))], list[rr.Intn(len(list))]
+				if len(x) > 0 && len(x) == len(y) {
+					cut := rr.Intn(len(x) + 1)
+					o = x[:cut] + y[cut:]
+				}
+			}
+			if rr.Chance(20) {
+				o = strings.ToUpper(o)
+			}
+		}
 		var got bool
 		if e := safely(func() { got = server.VerifMatchesOrigins(list, o) }); e != "" {
 			c.Violation(VReport{Prop: "C17", Sig: "originPanic", Msg: "matchesOrigins panicked: " + e, Witness: pureWitness{"pure", "origin", []interface{}{list, o}}})
